@@ -152,7 +152,7 @@ PassFill(c, st, FixedFill) ==
 \* Object histories (added; nothing above is changed).  A Binner object is a state
 \* machine: one data array, a sequence of calls on the SAME object.
 \*   history  h  == [x : Seq(Int), hasw : BOOLEAN, calls : Seq(call), ...]
-\*   call        == [op : {"dohist","calc_stats"}, mode : {"binsize","nbin","nperbin","none"},
+\*   call        == [op : {"dohist","calc_stats"}, mode : {"binsize","nbin","nperbin","none" (no bin specification)},
 \*                   b, hasmin, min, hasmax, max, rev : BOOLEAN, cs : BOOLEAN]
 \* The property quantifies over (data, bin specification, limits) only: what the object
 \* holds after call k must be an allowed outcome of the LAST dohist call on the data,
@@ -195,9 +195,46 @@ HOStepFailing(h, k, o) ==
     IF m = 0 THEN {}                      \* calc_stats before any dohist: the statement is silent
     ELSE LET cl == h.calls[m]
              cc == HOCase(h, cl)
-         IN IF cl.mode = "nperbin"
+         IN IF cl.mode = "none" THEN {}       \* a dohist call without bin specification: the statement is silent
+            ELSE IF cl.mode = "nperbin"
             THEN HOPartFailing(cc, o) \cup
                  (IF o.err = "none" /\ ~NoData(cc) /\ cl.rev /\ ~o.hasrev THEN {"rev_missing"} ELSE {})
             ELSE Failing(cc, o) \cup
                  (IF o.err = "none" /\ ~NoData(cc) /\ ~Degenerate(cc) /\ cl.rev /\ ~o.hasrev THEN {"rev_missing"} ELSE {})
+
+\* ---------------------------------------------------------------------------------
+\* Scale (added).  The law that makes large inputs decidable from small ones: the
+\* histogram of a concatenation is the sum of the histograms of the parts over the same
+\* bins, and every reverse-index slice is the stable merge of the parts' slices (indices of
+\* the second part shifted).  HistMC checks it on the small scope (ConcatLaw).  Hence the
+\* result for data made of few distinct values, value k repeated mult[k] times in ANY
+\* arrangement, is fixed by the one-datum-per-value case: bin i counts the multiplicities
+\* of its values and its slice is, value after value in ascending order, the mult[k]
+\* positions of that value in ascending order.
+\*   scale case  sc == [vals : strictly ascending Seq(Int), mult : Seq(Nat \ {0}), arr : STRING,
+\*                      mode, b, hasmin, min, hasmax, max]
+\*   observation o  == [err, hist, hasrev, ptr : the first nbin+1 entries of rev, revlen : Len(rev),
+\*                      runs : per bin the run-length encoding BY DATA VALUE of the slice
+\*                             <<[v, len, asc : indices strictly ascending within the run]>>]
+\* (an O(n) projection of the returned arrays made by the harness; every clause is judged here)
+HSBase(sc) == [x |-> sc.vals, mode |-> sc.mode, b |-> sc.b,
+               hasmin |-> sc.hasmin, min |-> sc.min, hasmax |-> sc.hasmax, max |-> sc.max]
+HSRunnable(sc) == LET cd == HSBase(sc) IN ~NoData(cd) /\ ~Degenerate(cd) /\ Unambiguous(cd)
+HSValsIn(sc, i) == LET cd == HSBase(sc) IN {k \in Limited(cd) : BinOf(cd, k) = i}       \* value numbers of bin i
+HSExpectHist(sc) == [i \in 1..NBin(HSBase(sc)) |-> VSum([k \in 1..Len(sc.vals) |-> IF k \in HSValsIn(sc, i - 1) THEN sc.mult[k] ELSE 0])]
+HSExpectRuns(sc, i) == LET ks == VSortSet(HSValsIn(sc, i))
+                       IN [r \in 1..Len(ks) |-> [v |-> sc.vals[ks[r]], len |-> sc.mult[ks[r]]]]
+HSFailing(sc, o) ==
+    LET nb == NBin(HSBase(sc)) IN
+    IF o.err # "none" THEN {"unexpected_error"}
+    ELSE IF Len(o.hist) # nb THEN {"nbin"}
+    ELSE (IF o.hist = HSExpectHist(sc) THEN {} ELSE {"counts"}) \cup
+         (IF ~o.hasrev THEN {}
+          ELSE IF ~(/\ Len(o.ptr) = nb + 1 /\ o.ptr[1] = nb + 1
+                    /\ \A i \in 1..nb : o.ptr[i] <= o.ptr[i + 1]
+                    /\ o.ptr[nb + 1] <= o.revlen /\ Len(o.runs) = nb) THEN {"rev_pointers"}
+          ELSE (IF \A i \in 1..nb : o.ptr[i + 1] - o.ptr[i] = o.hist[i] THEN {} ELSE {"rev_slice_len_ne_hist"}) \cup
+               (IF \A i \in 1..nb : [r \in DOMAIN o.runs[i] |-> [v |-> o.runs[i][r].v, len |-> o.runs[i][r].len]] = HSExpectRuns(sc, i - 1)
+                THEN {} ELSE {"rev_slice_members"}) \cup
+               (IF \A i \in 1..nb : \A r \in DOMAIN o.runs[i] : o.runs[i][r].asc THEN {} ELSE {"rev_slice_order"}))
 =============================================================================
